@@ -367,3 +367,12 @@ Proof.
   apply map_rows_ext_in. intros s Hs. symmetry. apply (scale_point_is_minmax_transform (ddim d)); auto.
   destruct Hwf as [_ Hl]. rewrite Forall_forall in Hl. apply Hl. exact Hs.
 Qed.
+
+(* ------------------------------------------------------------------ concrete object used by the non-vacuity example of Props/C19.v *)
+Definition ex_learn : ds := fresh [([0; 0], 0%Z); ([1; Qc2], 0%Z); ([Qc2 + Qc2; Qc2 + Qc2], 1%Z); ([Qc2 + 1; Qc2 + Qc2], 1%Z)].
+Definition ex_st : cstate :=
+  match initialize as_found ex_learn None with
+  | Some ir => mkC (i_min ir) (i_max ir) (i_fac ir) (i_scaled ir) [0%Z; 1%Z] [0%Z; 1%Z] [0%Z; 1%Z] true
+  | None => mkC [] [] [] (fresh []) [] [] [] false
+  end.
+Definition ex_new : ds := fresh [([1; 1], 0%Z); ([Qc2 + Qc2 + Qc2 + Qc2 + 1; 0], 1%Z); ([Qc2 + 1; Qc2 + 1], 0%Z)].
